@@ -205,3 +205,10 @@ Proof.
   hstep; [guard_upd|exact I|].
   exact I.
 Qed.
+
+(* a run of three iterations: the timerfd becomes due; the timer callback queues functor 7, which (running
+   in doPendingFunctors) queues functor 8 and therefore wakes the loop; 8 runs in the next iteration;
+   then the loop is idle *)
+Definition hq_ex : nat -> cb -> list nat := fun c k => match c, k with 0, CbRead => [7] | _, _ => [] end.
+Definition fb_ex : fnbody := fun i => match i with 7 => ([], [8]) | _ => ([], []) end.
+Definition env0 : kenv := mkKenv 0 0 (fun _ => 0%N).
